@@ -16,7 +16,8 @@ RULE = ("every generated interval is built twice with the real library, on the w
         "a sequence chunk (seq_chunk_to_parent), one op line per (interval description, chunk window, aspect); "
         "exhaustive small scope (see exhaustive_scope) + random larger intervals, all start frames, both strands, "
         "chunks on + and -; a case is non-trivial when the library answered ok and the chunk window CUTS the interval "
-        "(it neither contains nor misses it); distinct = distinct operation lines")
+        "(it neither contains nor misses it); distinct = distinct operation lines. Aspects: loc, ident, seq, ccodons, "
+        "kcodons, kwcodons (a codon window on top of the chunk), cdsseq, prot, kframes")
 EXHAUSTIVE_NOTE = ""
 TRUSTED = ["Model/Chunk.lean is hand-written; tied to gene/interval.py, cds.py, transcript.py, feature.py, gene.py, "
            "collections.py, io/parser.py by this run's correspondence",
